@@ -11,6 +11,8 @@ def classify(e, mon):
 
 def run(ctx):
     ctx.build("h-programs", "c17")
+    if ctx.replay_file:
+        ctx.note("replay: the recorded case lies inside the finite domain of this check, which is re-executed as a whole")
     ctx.model_check("MC_ConfigKV", workers=8, timeout=900, expect_actions=["DoWrite"])
     tr = ctx.path("init.ndjson")
     ctx.run_bin("c17", ["all", "--out", tr])
